@@ -746,7 +746,7 @@ func main() {
 		Assumptions: []string{
 			"GetState() can only be sampled: first sample Starting, nothing but Closed after Closed, no component created/started once Closed was seen, Closed after every run that ended on a stop path",
 			"the harness provider notifies at most once per Retrieved, never after Close/Shutdown and never from a foreign goroutine once a stop event was issued (confmap.Resolver closes its channel on shutdown)",
-			"a stop event must be honoured when it was fired with the loop idle in Running (and no reload pending for Shutdown()), or is sticky (cancel, watcher error, Shutdown() in state Starting/Running from a callback, a signal once the handlers are registered and at most 3 signals are pending); otherwise it only has to be safe and the history ends with a final stop at idle",
+			"a stop event must be honoured when it was fired with the loop idle in Running (and no reload pending for Shutdown()), or is sticky by nature (context cancel, a watcher error already handed to the resolver, a termination signal once the collector's handlers are registered and at most 3 signals are pending, an accepted FatalError event); a Shutdown() issued before Run, while starting or while reloading only has to be safe; the history always ends with a final stop at idle",
 			"bring-up failure paths (failed Start, invalid configuration, retrieve error) and a failing Shutdown of the retiring service: only 'Run returns the error, everything started is shut down' is demanded; final state and provider shutdown are demanded on stop paths only",
 		},
 		TrustedBase: []string{"runtime.Stack goroutine dumps to recognise the idle run loop and blocked frames", "os/signal dispatch (own registration + handler-table lock barrier)", "Go race detector"},
